@@ -109,7 +109,7 @@ def scen_assembly(ch, params, out):
     from vflib import clienv
     fmt = ch.choose("format", ["json", "yaml"], shard=False)
     plan_kinds = ["one_file_list", "one_file_per_sample", "two_files", "same_file_two_lookups", "wrapped_lookup", "two_models",
-                  "same_file_twice_same_lookup", "legacy_l", "object_and_list"]
+                  "same_file_twice_same_lookup", "legacy_l", "object_and_list", "list_with_empty_objects"]
     plan = ch.choose("plan", plan_kinds, shard=True)
     fs = {}
     argv = []
@@ -172,6 +172,16 @@ def scen_assembly(ch, params, out):
         put(f"/vfs/a.{ext}", POOL[:2])
         argv = ["-m", "Root", f"/vfs/a.{ext}", "-m", "Root", f"/vfs/a.{ext}"]
         expected = {"Root": POOL[:2] + POOL[:2]}
+    elif plan == "list_with_empty_objects":
+        # an empty object is a sample like any other (it makes every field optional); directly and behind a lookup
+        docs = [POOL[0], {}, POOL[1], {}]
+        if ch.flag("behind_lookup"):
+            put(f"/vfs/a.{ext}", {"data": {"items": docs}})
+            argv = ["-m", "Root", "data.items", f"/vfs/a.{ext}"]
+        else:
+            put(f"/vfs/a.{ext}", docs)
+            argv = ["-m", "Root", f"/vfs/a.{ext}"]
+        expected = {"Root": docs}
     elif plan == "legacy_l":
         put(f"/vfs/d.{ext}", {"first": POOL[:2]})
         put(f"/vfs/e.{ext}", POOL[2:])
@@ -208,6 +218,43 @@ def scen_assembly(ch, params, out):
         out.check(res.stdout.strip() == "Output is written to /vfs/out.py", "stdout_with_o", lambda: res.stdout[:200], "stdout_with_o")
         ref = clienv.run_main([a for a in argv if a not in ("-o", "/vfs/out.py")], {k: v for k, v in fs.items() if k != "/vfs/out.py"})
         out.check(body_of(ref.stdout) == body_of(text or "") + "\n", "o_text_differs_from_stdout", lambda: ctx(), "o_differs")
+
+
+def scen_ini(ch, params, out):
+    """-i ini: the samples are what Python's configparser (its documented defaults: basic %(name)s interpolation, DEFAULT section
+    inherited by every section, keys lower-cased) reports for the file -- one object per file, or the section a lookup selects"""
+    import configparser
+    from vflib import clienv
+    use_default, use_refs = ch.choose("default_section,references", [(a, b) for a in (False, True) for b in (False, True)], shard=True)
+    lookup = ch.choose("lookup", ["-", "server", "client"])
+    percent = ch.flag("escaped_percent_sign")
+    fw = ch.choose("framework", ["base", "pydantic"])
+    lines = []
+    if use_default:
+        lines += ["[DEFAULT]", "timeout = 30", "Owner = ops", ""]
+    lines += ["[server]", "host = example.org", "port = 8080"]
+    lines += ["admin_port = %(port)s", "url = http://%(host)s:%(port)s/"] if use_refs else ["admin_port = 8081", "url = http://example.org/"]
+    if percent:
+        lines += ["load = 50%%"]
+    lines += ["", "[client]", "retries = 3", "Verbose = true"]
+    if use_refs and use_default:
+        lines += ["note = owned by %(owner)s"]
+    text = "\n".join(lines) + "\n"
+    cp = configparser.ConfigParser()
+    cp.read_string(text)
+    doc = {sec: dict(cp.items(sec)) for sec in cp.sections()}
+    expected = [doc] if lookup == "-" else [doc[lookup]]
+    fs = {"/vfs/conf.ini": text}
+    argv = ["-m", "Config"] + ([lookup] if lookup != "-" else []) + ["/vfs/conf.ini", "-i", "ini", "-f", fw]
+    out.info = {"default": use_default, "refs": use_refs, "lookup": lookup, "percent": percent}
+    ctx = lambda: f"argv={argv} file={text!r}"
+    obj = clienv.run_cli_object(argv, dict(fs))
+    if not out.check(obj.status == 0 and obj.cli is not None, "cli_fails", lambda: f"{obj.exc!r} {obj.stderr[-300:]} ({ctx()})", "cli_fails"):
+        return
+    got = list(obj.cli.models_data.get("Config", []))
+    out.check(got == expected, "ini_samples_wrong", lambda: f"samples {got} expected {expected} ({ctx()})", "ini_samples_wrong")
+    lib = library_code({"Config": expected}, framework=fw)
+    out.check(body_of(obj.stdout) == lib, "cli_differs_from_library", lambda: f"({ctx()})\nCLI:\n{body_of(obj.stdout)[:500]}\nLIB:\n{lib[:500]}", "cli_differs_from_library")
 
 
 def scen_patterns(ch, params, out):
@@ -377,8 +424,9 @@ def scen_three_roots(ch, params, out):
 def parts(tier):
     q = tier == "quick"
     return [CH("lookup", "vflib.props.c16:scen_lookup", {"maxlen": 4 if q else 6}, shards=1, timeout=170 if q else 300, path_timeout=60, mode="CH-P"),
-            CH("assembly", "vflib.props.c16:scen_assembly", {}, shards=9, timeout=170 if q else 300, path_timeout=30),
+            CH("assembly", "vflib.props.c16:scen_assembly", {}, shards=10, timeout=170 if q else 300, path_timeout=30),
             CH("options", "vflib.props.c16:scen_options", {}, shards=13, timeout=170 if q else 300, path_timeout=30),
+            CH("ini_input", "vflib.props.c16:scen_ini", {}, shards=4, timeout=170 if q else 300, path_timeout=30),
             CH("path_patterns_on_a_real_directory", "vflib.props.c16:scen_patterns", {}, shards=15, timeout=170 if q else 300, path_timeout=30),
             CH("three_roots_merge", "vflib.props.c16:scen_three_roots", {}, shards=6, timeout=170 if q else 300, path_timeout=30)]
 
